@@ -570,13 +570,16 @@ class Gen:
             vi = pushes['visit_impl'][0]; vim = pushes['visit_mut_impl'][0]
         except KeyError as e:
             raise Refuse('%s: create_visit no longer pushes %s' % (path, e))
-        if vi != 'Instr::#name(e)=>{visitor.#method_name(e);e.visit(visitor);}': raise Refuse('%s: Instr::visit arm shape changed: %s' % (path, vi))
-        if vim != 'Instr::#name(e)=>{visitor.#method_name_mut(e);e.visit_mut(visitor);}': raise Refuse('%s: Instr::visit_mut arm shape changed: %s' % (path, vim))
+        shapes = {('Instr::#name(e)=>{visitor.#method_name(e);e.visit(visitor);}', 'Instr::#name(e)=>{visitor.#method_name_mut(e);e.visit_mut(visitor);}'): True,
+                  ('Instr::#name(e)=>visitor.#method_name(e),', 'Instr::#name(e)=>visitor.#method_name_mut(e),'): False,
+                  ('Instr::#name(e)=>{visitor.#method_name(e);}', 'Instr::#name(e)=>{visitor.#method_name_mut(e);}'): False}
+        if (vi, vim) not in shapes: raise Refuse('%s: Instr::visit / visit_mut arm shape not understood: %s | %s' % (path, vi, vim))
+        after = shapes[(vi, vim)]
         def rec(b, call):
             if b == '': return False
             if b == call: return True
             raise Refuse('%s: default hook body not understood: %s' % (path, b))
-        r = {'visitor_default_recurses': rec(vis, 'instr.visit(self);'), 'visitor_mut_default_recurses': rec(vism, 'instr.visit_mut(self);')}
+        r = {'visitor_default_recurses': rec(vis, 'instr.visit(self);'), 'visitor_mut_default_recurses': rec(vism, 'instr.visit_mut(self);'), 'fields_after_hook': after}
         self.report['hooks'] = r
         return r
 
@@ -693,6 +696,8 @@ class Gen:
         w('(* crates/macro: shape of the generated Instr::visit / visit_mut and of the default hook bodies *)')
         w('Definition default_hook_recurses : bool := %s.' % ('true' if hs['visitor_default_recurses'] else 'false'))
         w('Definition default_hook_mut_recurses : bool := %s.' % ('true' if hs['visitor_mut_default_recurses'] else 'false'))
+        w('(* does Instr::visit / visit_mut visit the fields itself after calling the per-variant hook? *)')
+        w('Definition visit_fields_after_hook : bool := %s.' % ('true' if hs['fields_after_hook'] else 'false'))
         w('(* an injective serialisation (constructor index, then every immediate), used only to compare operators by computation *)')
         w('Definition z_code (z : Z) : N := match z with Z0 => 0 | Zpos p => 2 * Npos p | Zneg p => 2 * Npos p + 1 end.')
         w('Definition valty_code (v : valty) : N := match v with VT_I32 => 0 | VT_I64 => 1 | VT_F32 => 2 | VT_F64 => 3 | VT_V128 => 4 | VT_Funcref => 5 | VT_Externref => 6 end.')
